@@ -11,6 +11,7 @@ import (
 	"math/rand"
 	"sort"
 	"strings"
+	"sync"
 
 	"github.com/canopy-network/canopy/fsm"
 	"github.com/canopy-network/canopy/lib"
@@ -462,7 +463,28 @@ func injKeys(run *core.Run) {
 
 // ---------- behavioural monitors: the real VersionedStore / Txn / Store / Indexer ----------
 
+// storeLifecycle serialises the operations that acquire or release pebble batches. canopy's Store.Discard() closes the same
+// pooled pebble batch up to three times (Txn reader, Txn writer, Store.writer; store/store.go:590-601): with several Stores in one
+// process a batch released by the first Close can be handed to another goroutine and then be released again by the stale second
+// Close ("pebble: batch already committing"). That is unrelated to this property, so the harness keeps those windows exclusive.
+var storeLifecycle sync.Mutex
+
+func closeStore(st *store.Store) {
+	storeLifecycle.Lock()
+	defer storeLifecycle.Unlock()
+	_ = st.Close()
+}
+
+func commitStore(st *store.Store) lib.ErrorI {
+	storeLifecycle.Lock()
+	defer storeLifecycle.Unlock()
+	_, err := st.Commit()
+	return err
+}
+
 func newMemStore() *store.Store {
+	storeLifecycle.Lock()
+	defer storeLifecycle.Unlock()
 	cfg := lib.DefaultConfig()
 	cfg.StoreConfig.LSSCompactionInterval = 0
 	cfg.StoreConfig.IndexByAccount = true
@@ -700,14 +722,16 @@ func vstoreCase(run *core.Run, name string) {
 	keys, prefixes := nestedUniverse(rng, 5+rng.Intn(10), maxLen, flat)
 	attrs := fmt.Sprintf("nested=%v", hasNested(keys))
 	st := newMemStore()
-	defer st.Close()
+	defer closeStore(st)
 	db := st.DB()
 	model := vmodel{}
 	V := uint64(2 + rng.Intn(4))
 	var hist []string
 	valN := 0
 	for v := uint64(1); v <= V; v++ {
+		storeLifecycle.Lock()
 		batch := db.NewBatch()
+		storeLifecycle.Unlock()
 		vs := store.NewVersionedStore(db.NewSnapshot(), batch, v)
 		useTxn := rng.Intn(2) == 0
 		var txn *store.Txn
@@ -828,7 +852,7 @@ func stateCase(run *core.Run, name string) {
 		}
 	}
 	st := newMemStore()
-	defer st.Close()
+	defer closeStore(st)
 	model := vmodel{}
 	type pref struct {
 		name string
@@ -895,7 +919,7 @@ func stateCase(run *core.Run, name string) {
 			}
 			touched[v][string(k)] = true
 		}
-		if _, err := st.Commit(); err != nil {
+		if err := commitStore(st); err != nil {
 			panic(err)
 		}
 	}
@@ -1002,7 +1026,7 @@ func storeKeys(run *core.Run) {
 func indexerCase(run *core.Run, name string) {
 	rng := run.Rand(name)
 	st := newMemStore()
-	defer st.Close()
+	defer closeStore(st)
 	var pool [][]byte
 	newAddr := func() []byte {
 		a := hostileComp(rng, 255, pool)
@@ -1060,6 +1084,54 @@ func indexerCase(run *core.Run, name string) {
 		d := dsr{addrs[rng.Intn(len(addrs))], heights[rng.Intn(len(heights))]}
 		dss = append(dss, d)
 		if err := st.IndexDoubleSigner(d.addr, d.height); err != nil {
+			panic(err)
+		}
+		run.Count("indexer_records_written", 1)
+	}
+	// blocks by hash (the by-height path goes through a process-global cache and is left to the chain-level checks)
+	type blk struct {
+		hash   []byte
+		height uint64
+	}
+	var blks []blk
+	seenBH := map[string]bool{}
+	for i := 0; i < 2+rng.Intn(5); i++ {
+		h := hostileComp(rng, 255, pool)
+		if seenBH[string(h)] {
+			continue
+		}
+		seenBH[string(h)] = true
+		b := blk{h, 1_000_000_000 + uint64(rng.Intn(1<<30))} // heights no other check uses: the block cache is keyed by height
+		blks = append(blks, b)
+		if err := st.IndexBlock(&lib.BlockResult{BlockHeader: &lib.BlockHeader{Height: b.height, Hash: b.hash, NetworkId: 1}}); err != nil {
+			panic(err)
+		}
+		run.Count("indexer_records_written", 1)
+	}
+	// events by address / chain id / height
+	type evr struct {
+		ref     string
+		addr    []byte
+		chain   uint64
+		height  uint64
+		index   int
+	}
+	var evs []evr
+	seenEv := map[[2]uint64]bool{}
+	for i := 0; i < 3+rng.Intn(10); i++ {
+		e := evr{ref: fmt.Sprintf("ev-%d", i), chain: uint64(rng.Intn(3)), height: heights[rng.Intn(len(heights))], index: rng.Intn(5)}
+		if rng.Intn(4) != 0 {
+			e.addr = addrs[rng.Intn(len(addrs))]
+		}
+		if rng.Intn(3) == 0 {
+			e.chain = hostileUint(rng)
+		}
+		if seenEv[[2]uint64{e.height, uint64(e.index)}] {
+			continue
+		}
+		seenEv[[2]uint64{e.height, uint64(e.index)}] = true
+		evs = append(evs, e)
+		if err := st.IndexEvent(&lib.Event{EventType: "custom", Height: e.height, Reference: e.ref, ChainId: e.chain, Address: e.addr}, e.index); err != nil {
 			panic(err)
 		}
 		run.Count("indexer_records_written", 1)
@@ -1123,6 +1195,73 @@ func indexerCase(run *core.Run, name string) {
 			return
 		}
 		pp := lib.PageParams{PerPage: 5000}
+		for _, b := range blks {
+			got, err := st.GetBlockByHash(b.hash)
+			run.Count("indexer_queries_compared", 1)
+			if err != nil || got == nil || got.BlockHeader == nil || got.BlockHeader.Height != b.height || !bytes.Equal(got.BlockHeader.Hash, b.hash) {
+				bad("key-collision", "blockHashKey", map[string]any{"hash": hex.EncodeToString(b.hash), "want_height": b.height, "got": fmt.Sprint(got), "err": fmt.Sprint(err)})
+			}
+		}
+		evRefs := func(p *lib.Page, err lib.ErrorI) []string {
+			if err != nil {
+				panic(err)
+			}
+			var out []string
+			for _, e := range *p.Results.(*lib.Events) {
+				out = append(out, e.Reference)
+			}
+			sort.Strings(out)
+			return out
+		}
+		wantEv := func(f func(evr) bool) []string {
+			var out []string
+			for _, e := range evs {
+				if f(e) {
+					out = append(out, e.ref)
+				}
+			}
+			sort.Strings(out)
+			return out
+		}
+		for _, a := range addrs {
+			a := a
+			got, want := evRefs(st.GetEventsByAddress(crypto.NewAddress(a), false, pp)), wantEv(func(e evr) bool { return e.addr != nil && bytes.Equal(e.addr, a) })
+			run.Count("indexer_queries_compared", 1)
+			if strings.Join(got, ",") != strings.Join(want, ",") {
+				bad(rangeKind(got, want), "eventAddressKey", map[string]any{"address": hex.EncodeToString(a), "got": got, "want": want})
+			}
+		}
+		chains := map[uint64]bool{}
+		for _, e := range evs {
+			if e.chain != 0 {
+				chains[e.chain] = true
+			}
+		}
+		for c := range chains {
+			c := c
+			got, want := evRefs(st.GetEventsByChainId(c, false, pp)), wantEv(func(e evr) bool { return e.chain == c })
+			run.Count("indexer_queries_compared", 1)
+			if strings.Join(got, ",") != strings.Join(want, ",") {
+				bad(rangeKind(got, want), "eventChainIdKey", map[string]any{"chain": c, "got": got, "want": want})
+			}
+		}
+		for _, h := range heights {
+			h := h
+			res, err := st.GetEventsNonPaginated(h, false)
+			if err != nil {
+				panic(err)
+			}
+			var got []string
+			for _, e := range res {
+				got = append(got, e.Reference)
+			}
+			sort.Strings(got)
+			want := wantEv(func(e evr) bool { return e.height == h })
+			run.Count("indexer_queries_compared", 1)
+			if strings.Join(got, ",") != strings.Join(want, ",") {
+				bad(rangeKind(got, want), "eventHeightKey", map[string]any{"height": h, "got": got, "want": want})
+			}
+		}
 		for _, a := range addrs {
 			a := a
 			for _, rev := range []bool{false, true} {
@@ -1193,7 +1332,7 @@ func indexerCase(run *core.Run, name string) {
 		}
 	}
 	verify("uncommitted")
-	if _, err := st.Commit(); err != nil {
+	if err := commitStore(st); err != nil {
 		panic(err)
 	}
 	verify("committed")
